@@ -62,10 +62,16 @@ func runSolver(sp solverSpec, script string, dir string, name string, timeoutMs 
 	_ = cmd.Run()
 	ms := time.Since(t0).Milliseconds()
 	text := out.String()
-	first := strings.TrimSpace(strings.SplitN(text, "\n", 2)[0])
-	switch first {
-	case "unsat", "sat", "unknown":
-		return first, text, ms
+	for _, l := range strings.Split(text, "\n") {
+		first := strings.TrimSpace(l)
+		if first == "" || strings.HasPrefix(first, "WARNING") || strings.HasPrefix(first, "(warning") {
+			continue
+		}
+		switch first {
+		case "unsat", "sat", "unknown":
+			return first, text, ms
+		}
+		break
 	}
 	if ctx.Err() != nil || strings.Contains(text, "timeout") || strings.Contains(text, "interrupted") {
 		return "timeout", text, ms
@@ -104,9 +110,19 @@ func Solve(script string, workDir string, name string, timeoutMs int, thorough b
 	}
 	var unsatBy, satBy string
 	var satOut string
-	for i, sp := range solvers {
-		t := timeoutMs
-		st, out, ms := runSolver(sp, full, workDir, safe, t)
+	type attempt struct {
+		sp solverSpec
+		t  int
+	}
+	short := timeoutMs / 5
+	if short > 2000 {
+		short = 2000
+	}
+	plan := []attempt{{solvers[0], short}, {solvers[1], short}, {solvers[0], timeoutMs}, {solvers[1], timeoutMs}, {solvers[2], timeoutMs}, {solvers[3], timeoutMs}}
+	consulted := map[string]bool{}
+	for _, at := range plan {
+		sp := at.sp
+		st, out, ms := runSolver(sp, full, workDir, safe, at.t)
 		res.Tried = append(res.Tried, fmt.Sprintf("%s:%s:%dms", sp.name, st, ms))
 		res.Ms += ms
 		switch st {
@@ -114,11 +130,13 @@ func Solve(script string, workDir string, name string, timeoutMs int, thorough b
 			if unsatBy == "" {
 				unsatBy = sp.name
 			}
+			consulted[sp.name] = true
 		case "sat":
 			if satBy == "" {
 				satBy = sp.name
 				satOut = out
 			}
+			consulted[sp.name] = true
 		case "error":
 			if res.Output == "" {
 				res.Output = sp.name + ": " + firstLines(out, 5)
@@ -127,9 +145,8 @@ func Solve(script string, workDir string, name string, timeoutMs int, thorough b
 		if !thorough && (unsatBy != "" || satBy != "") {
 			break
 		}
-		if thorough && i >= 1 && (unsatBy != "" || satBy != "") {
-			// two solvers consulted
-			break
+		if thorough && len(consulted) >= 2 {
+			break // two different solvers have answered
 		}
 	}
 	if unsatBy == "" && satBy == "" && !noHint && len(values) > 0 {
@@ -147,6 +164,24 @@ func Solve(script string, workDir string, name string, timeoutMs int, thorough b
 			}
 			return fmt.Sprintf("(_ re.loop %d %d)", a, b)
 		})
+		// quantified assumptions are dropped as well (weaker assumptions, more candidate models)
+		var kept []string
+		for _, l := range strings.Split(hinted, "\n") {
+			if strings.HasPrefix(l, "(assert ") && (strings.Contains(l, "(forall ") || strings.Contains(l, "(exists ")) && !strings.HasPrefix(l, "(assert (not ") {
+				continue
+			}
+			kept = append(kept, l)
+		}
+		hinted = strings.Join(kept, "\n")
+		var bounds []string
+		for _, v := range values {
+			if strings.HasPrefix(v, "rp_len_") {
+				bounds = append(bounds, fmt.Sprintf("(assert (<= %s 3))", v))
+			}
+		}
+		if len(bounds) > 0 {
+			hinted = strings.Replace(hinted, "(check-sat)", strings.Join(bounds, "\n")+"\n(check-sat)", 1)
+		}
 		for _, sp := range []solverSpec{solvers[1], solvers[0]} {
 			st, out, ms := runSolver(sp, hinted, workDir, safe+".search", timeoutMs)
 			res.Tried = append(res.Tried, fmt.Sprintf("%s(model-search):%s:%dms", sp.name, st, ms))
@@ -200,7 +235,7 @@ func ReplayTerms(o *Obligation) []NamedTerm {
 		if v == nil {
 			continue
 		}
-		switch v.Sort {
+		switch v.Sort.Base() {
 		case SInt, SBool, SString:
 			add("rp_in_"+prm.Name(), v)
 		case SSlice:
@@ -215,7 +250,7 @@ func ReplayTerms(o *Obligation) []NamedTerm {
 	if o.Kind == "post" {
 		for i, r := range e.results {
 			if t, ok := r.(*Term); ok {
-				switch t.Sort {
+				switch t.Sort.Base() {
 				case SInt, SBool, SString:
 					add(fmt.Sprintf("rp_out_%d", i), t)
 				}
@@ -229,6 +264,7 @@ func ReplayTerms(o *Obligation) []NamedTerm {
 func ObligationScript(o *Obligation) (string, []string) {
 	var asserts []*Term
 	if o.exec != nil {
+		asserts = append(asserts, o.exec.globalAssumes...)
 		asserts = append(asserts, o.exec.assumes[:o.NAssume]...)
 	}
 	asserts = append(asserts, o.Extra...)
